@@ -1,6 +1,34 @@
-"""C19 -- curry, map_, filter_, setcol (curry part: Props/C19.v)."""
+"""C19 -- curry, map_, filter_, setcol (Props/C19.v).
+
+curry cases: compositions / prefix-reuse trees / equal-but-distinguishable arguments, compared in Coq with
+Model/Curry.v (the argument sequence f finally receives is encoded by type + repr, never by ==).
+map_ / filter_ / setcol cases: a table from the zoo (fresh / sorted / shuffled / selected / sliced / indexed /
+deleted / grown / shrunk / concatenated / unpickled, aliased columns created before or after the derivation,
+non-default default_col_type and sorted=False, Mixed / Float / Int / Series columns), a recorded user function, the
+implementation's result compared (a) in Coq with Spec/Functional.v (oracle) and Model/Functional.v (model) on the same
+table and the tabulated function, (b) on the Python side with a by-value reference, and audited for purity (argument
+unchanged, nothing shared between argument and result, writes to either side do not reach the other)."""
 import itertools
+import math
+import numbers
+import pickle
+import random as _random
+import warnings
+
 import coqlit as L
+import pyobs as O
+
+# Behaviour of the UNCHANGED tree that contradicts the property text and waits for the coordinator's decision (see
+# the builder report).  The inputs concerned stay out of the default stream:
+#  (F1) filter_(f, col) where col is known under two names in its table (dm.b = dm.a): returns a DataMatrix
+#       (col.name is a list, so `(col == f)[col.name]` is a keep_only), not a column;
+#  (F2) setcol(dm, 'a', 7) on such a table: the result has a = 7 and b unchanged, whereas dm['a'] = 7 writes through the
+#       shared column (a and b both 7);
+#  (F3) setcol(dm, new_name, scalar_or_sequence) on a table with default_col_type != MixedColumn: the new column is a
+#       MixedColumn (the copy dm[:] drops default_col_type), whereas dm[new_name] = value creates the default type;
+#  (F4) filter_(f, dm.a * 2) (a column that sits under no name in its table): KeyError (col.name is None);
+#  (F5) filter_(functools.partial(...), col): silently returns an empty column (not a types.FunctionType).
+INCLUDE_PENDING_FINDINGS = False
 
 
 def make_f(n):
@@ -31,33 +59,143 @@ def obs_lit(o):
     return '(OVal %s)' % L.zs(o)
 
 
+class StrSub(str):
+    """a str subclass: equal to and hashed like the plain string, but distinguishable"""
+    pass
+
+
+class IntSub(int):
+    pass
+
+
+def rich_pool():
+    """Fresh argument objects; many compare equal (and hash alike) although they differ in type / value / identity."""
+    nan = float('nan')
+    return [1, 1.0, True, IntSub(1), 0, 0.0, -0.0, False, 2, 2.0, 'a', StrSub('a'), 'b', None, nan, float('nan'),
+            (1,), (1.0,), (True,), (), [1], [1], [1.0], {'k': 1}, {'k': 1.0}, 10 ** 20, 1e20, -1, -1.0, '', b'a', 0j,
+            frozenset([1]), frozenset([1.0])]
+
+
+def tok_key(v):
+    return (type(v).__module__ + '.' + type(v).__qualname__, repr(v))
+
+
+def rich_tokens(pool):
+    """identity-faithful encoding: one integer per distinct (type, repr)"""
+    table = {}
+    for v in pool:
+        table.setdefault(tok_key(v), 1000 + len(table))
+    return table
+
+
+KIND = {'MixedColumn': 'KMixed', 'FloatColumn': 'KFloat', 'IntColumn': 'KInt'}
+
+
+def isnum(x):
+    return isinstance(x, numbers.Number) and not isinstance(x, bool)
+
+
+def truthy(x):
+    try:
+        return bool(x)
+    except Exception:      # noqa: BLE001
+        return False
+
+
+def plain(x):
+    """the cell as the model sees it: NumPy scalars handed to user functions are their Python values"""
+    import numpy as np
+    if isinstance(x, np.floating):
+        return float(x)
+    if isinstance(x, np.integer):
+        return int(x)
+    return x
+
+
+def cell_ok(x, kind):
+    """a cell the Coq value domain represents faithfully"""
+    if x is None:
+        return kind == 'KMixed'
+    if type(x) is int:
+        return kind in ('KMixed', 'KInt') and abs(x) < 2 ** 62
+    if type(x) is float:
+        if kind == 'KFloat':
+            return True
+        return kind == 'KMixed' and not (math.isfinite(x) and x == int(x))
+    if type(x) is str and kind == 'KMixed':
+        for conv in (int, float):
+            try:
+                conv(x)
+                return False       # numeric-looking text is never stored by a type-checked write
+            except ValueError:
+                pass
+        return True
+    return False
+
+
+class Recorder(object):
+    """wraps a user function; records (argument, result) pairs and checks that the function is a function"""
+
+    def __init__(self, fn, rowwise):
+        self.fn, self.rowwise, self.calls, self.impure = fn, rowwise, [], None
+
+    def note(self, arg, res):
+        self.calls.append((arg, res))
+
+    def as_row_function(self):
+        def f(**d):
+            r = self.fn(dict(d))
+            self.note(dict(d), r)
+            return r
+        return f
+
+    def as_cell_function(self):
+        def g(x):
+            r = self.fn(x)
+            self.note(x, r)
+            return r
+        return g
+
+
 class C19:
     id = 'C19'
     props_file = 'theories/Props/C19.v'
-    kernel_files = ['KCurry.v']
+    kernel_files = ['KCurry.v', 'KFunctional.v']
     oracle_vos = ['theories/Run/SC19.vo']
     model_vos = ['theories/Run/RC19.vo']
     oracle_imports = ['From DM Require Import Run.SC19.', 'Open Scope Z_scope.']
     model_imports = ['From DM Require Import Run.SC19 Run.RC19.', 'Open Scope Z_scope.']
     exhaustive = False
     rule = ('curry: every composition of n arguments for arities 1..6 (all 63, exhaustive) with each proper prefix '
-            'observed, plus prefix-reuse trees (one prefix object continued in 2-4 different ways, in shuffled order) '
-            'and out-of-quantifier calls (empty chunks, too many arguments, calling a returned value) that only the '
-            'L1 model speaks about; a case is non-trivial when it contains at least one call that runs f; distinct by '
-            '(arity, set of paths)')
+            'observed; prefix-reuse trees (one wrapper / one prefix object continued in 2-5 ways, chains advanced in a '
+            'random interleaving); the same over a pool of arguments that compare equal but differ in type, value or '
+            'identity (1 / 1.0 / True / int subclass, 0 / 0.0 / -0.0 / False, str / str subclass, NaN objects, tuples, '
+            'unhashable lists and dicts), f returning the tuple it received, compared by (type, repr) tokens in Coq and by '
+            'identity in Python; out-of-quantifier calls (empty chunks, too many arguments, calling a value, keywords). '
+            'map_/filter_/setcol: a table from the zoo (11 derivation routes composed up to 3 deep, aliases before/after, '
+            'non-default flags, Series columns), a recorded row/cell function from 6-9 families, result compared with '
+            'Spec/Functional.v and Model/Functional.v on the tabulated function, with a by-value Python reference, and '
+            'audited (argument unchanged, no shared column/buffer/index, writes do not cross). non-trivial: runs f at '
+            'least once / table has rows; distinct by (kind, route, family, shape)')
     trusted_base = [
         'Coq 8.16.1 kernel (coqc; vm_compute for evaluating cases; no native_compute)',
-        'translator /verif/translate/kernels.py:gen_curry (ast -> Gen/KCurry.v) incl. its pinned fragments',
-        'harness/c19.py runner + Run/SC19.v, Run/RC19.v comparators',
-        'modelled, not verified: functools.partial / inspect.getfullargspec semantics, Python call protocol',
+        'translators /verif/translate/gen_curry.py, gen_functional.py (ast -> Gen/KCurry.v, Gen/KFunctional.v) incl. '
+        'their pinned fragments',
+        'harness/c19.py runner (table zoo, recorder, literal printers, audits) + Run/SC19.v, Run/RC19.v comparators',
+        'modelled, not verified: functools.partial / inspect.getfullargspec semantics, Python call protocol, dict order, '
+        'sorted(), NumPy array casts of mapped values (Spec.mapped_cell)',
+        'cell coercion is Spec/Nf.nf in both levels (tied to the code by C05)',
     ]
     assumptions = [
-        'the wrapped function is a plain Python function of n positional parameters that does not raise',
-        'map_, filter_ and setcol are compared with a plain-Python reference on tables in six row orders (probes); their '
-        'theorems are the positional take / frame theorems of the core (C01, C06), not restated here',
+        'the wrapped / mapped / filter function is a pure total Python function (checked per case: the recorder rejects '
+        'two different results for one argument)',
+        'tables are by value in the Coq levels: aliasing, ownership and buffer sharing are judged by the Python-side audits',
+        'numeric _getrowidkey (argsort + searchsorted) is modelled by the dict lookup; their equivalence on duplicate-free '
+        'ids is a C01 theorem',
     ]
 
-    def _run(self, n, paths):
+    # ================================================================== curry
+    def _run(self, n, paths, rich=False, sched=None, kw=None):
         from datamatrix import functional as fnc
         f = make_f(n)
         root = fnc.curry(f)
@@ -65,30 +203,52 @@ class C19:
         if getattr(root, '__name__', None) != f.__name__ or getattr(root, '__doc__', None) != f.__doc__:
             pyfail = 'curry wrapper lost __name__/__doc__: %r %r' % (getattr(root, '__name__', None),
                                                                        getattr(root, '__doc__', None))
+        pool = rich_pool() if rich else None
+        toks = rich_tokens(pool) if rich else None
+
+        def arg(a):
+            return pool[a] if rich else a
+
         objs = {(): root}
-        observed = []
-        for path in paths:
-            key = ()
-            obj = root
-            for chunk in path:
-                key = key + (tuple(chunk),)
-                if key in objs:
-                    obj = objs[key]
-                    continue
-                if not callable(obj):
-                    obj = 'err'
-                elif isinstance(obj, str):
+        state = [((), root) for _ in paths]        # per path: (key so far, object so far)
+        pos = [0] * len(paths)
+        order = sched if sched is not None else [i for i, p in enumerate(paths) for _ in p]
+        for pi in order:
+            if pos[pi] >= len(paths[pi]):
+                continue
+            chunk = paths[pi][pos[pi]]
+            pos[pi] += 1
+            key, obj = state[pi]
+            key = key + (tuple(chunk),)
+            if key in objs:
+                obj = objs[key]
+            else:
+                if isinstance(obj, str) or not callable(obj):
                     obj = 'err'
                 else:
                     try:
-                        obj = obj(*chunk)
+                        if kw and pos[pi] == len(paths[pi]) and pi == 0:
+                            obj = obj(*[arg(a) for a in chunk], **kw)
+                        else:
+                            obj = obj(*[arg(a) for a in chunk])
                     except TypeError:
                         obj = 'err'
                 objs[key] = obj
-            if obj == 'err':
+            state[pi] = (key, obj)
+        observed = []
+        for pi, path in enumerate(paths):
+            obj = state[pi][1]
+            if isinstance(obj, str) and obj == 'err':
                 observed.append('err')
             elif callable(obj):
                 observed.append('fn')
+            elif rich:
+                sent = [pool[a] for ch in path for a in ch]
+                if isinstance(obj, tuple) and len(obj) == len(sent) and not all(r is s for r, s in zip(obj, sent)) \
+                        and pyfail is None:
+                    pyfail = 'curry called f with other objects than the ones supplied: got %r for %r' % (
+                        [tok_key(r) for r in obj], [tok_key(s) for s in sent])
+                observed.append([toks.get(tok_key(v), -1) for v in obj] if isinstance(obj, tuple) else [-2])
             else:
                 observed.append([int(v) for v in obj])
         return observed, pyfail
@@ -97,137 +257,887 @@ class C19:
         if 'probe' in inp:
             return self.probe(inp['probe'], inp['seed'])
         n, paths = inp['n'], inp['paths']
-        observed, pyfail = self._run(n, paths)
+        rich = bool(inp.get('rich'))
+        observed, pyfail = self._run(n, paths, rich, inp.get('sched'), inp.get('kw'))
+        toks = rich_tokens(rich_pool()) if rich else None
+        pool = rich_pool() if rich else None
         o_parts, m_parts = [], []
         calls_f = False
         for path, o in zip(paths, observed):
-            chunks = L.lst(L.zs(c) for c in path)
+            if rich:
+                chunks = L.lst(L.zs([toks[tok_key(pool[a])] for a in c]) for c in path)
+            else:
+                chunks = L.lst(L.zs(c) for c in path)
             o_parts.append('oracle %s %s %s' % (L.nat(n), chunks, obs_lit(o)))
             m_parts.append('model_agrees %s %s %s' % (L.nat(n), chunks, obs_lit(o)))
             calls_f = calls_f or isinstance(o, list)
+        if inp.get('kw'):
+            # keywords are refused by the curried function (documented): the first path must end in a TypeError
+            if observed and observed[0] != 'err' and pyfail is None:
+                pyfail = 'a curried function accepted keyword arguments'
+            o_parts, m_parts = o_parts[1:], m_parts[1:]
         return {
             'input': inp, 'observed': observed, 'pyfail': pyfail,
             'oracle': '(' + ' && '.join(o_parts) + ')' if o_parts else 'true',
             'model': '(' + ' && '.join(m_parts) + ')' if m_parts else 'true',
             'nontrivial': calls_f,
-            'sig': '%d|%s' % (n, sorted(map(str, paths))),
+            'sig': '%d|%s|%s' % (n, 'rich' if rich else 'int', sorted(map(str, paths))),
             'tags': inp.get('tags', []) + ['arity%d' % n],
         }
 
-    # ---- map_, filter_, setcol: direct probes against a plain-Python reference -------------------
-    def _table(self, sub):
-        import warnings
-        from datamatrix import DataMatrix, FloatColumn, IntColumn, operations as ops
-        n = sub.randint(0, 7)
+    # ================================================================== tables
+    ROUTES = ['sorted', 'shuffled', 'selected', 'sliced', 'indexed', 'deleted', 'grown', 'shrunk', 'concat',
+              'unpickled']
+    MIX = [1, 2, 3, 2.5, 'x', 'y', None, -1, '', 'é', float('nan'), float('inf'), 0, 10 ** 15 + 1, -2.75]
+    FLT = [0, 1, 2, 2.5, -1, float('nan'), float('inf'), float('-inf'), 1e300, -0.5]
+
+    def _base(self, sub, n, series, first_u=0):
+        from datamatrix import DataMatrix, MixedColumn, FloatColumn, IntColumn, SeriesColumn
         dm = DataMatrix(length=n)
-        dm.u = list(range(n))
-        dm.a = [sub.choice([1, 2, 3, 2.5, 'x', 'y', None, -1]) for _ in range(n)]
-        dm.f = FloatColumn
-        dm.f = [sub.choice([0, 1, 2, 2.5, -1, float('nan')]) for _ in range(n)]
-        dm.i = IntColumn
-        dm.i = [sub.randint(-2, 3) for _ in range(n)]
-        order = sub.choice(['natural', 'sorted', 'shuffled', 'selected', 'deleted', 'regrown'])
-        if order == 'sorted':
-            dm = ops.sort(dm, by=dm.i)
-        elif order == 'shuffled':
-            dm = ops.shuffle(dm)
-        elif order == 'selected':
-            dm = dm.i >= 0
-            _ = dm.a[dm]
-        elif order == 'deleted' and n:
-            del dm[sub.randrange(n)]
-        elif order == 'regrown':
-            dm = dm.i >= 0
-            dm.length = len(dm) + 2
-        return dm, order
+        order = ['u', 'a', 'f', 'i'] + (['s'] if series else [])
+        sub.shuffle(order)
+        for nm in order:
+            if nm == 'u':
+                dm.u = MixedColumn
+                dm.u = list(range(first_u, first_u + n))
+            elif nm == 'a':
+                dm.a = MixedColumn
+                dm.a = [sub.choice(self.MIX) for _ in range(n)]
+            elif nm == 'f':
+                dm.f = FloatColumn
+                dm.f = [sub.choice(self.FLT) for _ in range(n)]
+            elif nm == 'i':
+                dm.i = IntColumn
+                dm.i = [sub.randint(-2, 3) for _ in range(n)]
+            else:
+                dm.s = SeriesColumn(depth=2)
+                for r in range(n):
+                    dm.s[r] = [sub.randint(0, 5), sub.choice([0.5, 1.5, float('nan')])]
+        return dm
+
+    ALIASES = [('a', 'b'), ('a', 'A'), ('f', 'g'), ('f', 'e'), ('i', 'j'), ('u', 'v'), ('i', 'h')]
+
+    def _zoo(self, sub, series_ok=False):
+        """-> (dm, route tags)."""
+        from datamatrix import IntColumn, FloatColumn, operations as ops
+        n = sub.choice([0, 1, 2, 3, 3, 4, 4, 5, 6, 7])
+        series = series_ok and sub.random() < 0.2
+        dm = self._base(sub, n, series)
+        tags = []
+        if sub.random() < 0.2:
+            src, al = sub.choice(self.ALIASES)
+            dm[al] = dm[src]
+            tags.append('alias-before')
+        steps = sub.choice([0, 1, 1, 1, 2, 2, 3])
+        for _ in range(steps):
+            r = sub.choice(self.ROUTES)
+            m = len(dm)
+            if r == 'sorted':
+                dm = ops.sort(dm, by=dm[sub.choice(['i', 'a', 'f', 'u'])])
+            elif r == 'shuffled':
+                dm = ops.shuffle(dm)
+            elif r == 'selected':
+                dm = (dm.i >= 0) if sub.random() < 0.6 else (dm.a != 'x')
+                _ = dm.a[dm]
+            elif r == 'sliced':
+                dm = dm[sub.choice([slice(1, None), slice(None, -1), slice(None, None, 2), slice(None, None, -1)])]
+            elif r == 'indexed':
+                if m == 0:
+                    continue
+                idx = list(range(m))
+                sub.shuffle(idx)
+                dm = dm[idx[:sub.randint(1, m)]]
+            elif r == 'deleted':
+                if m == 0:
+                    continue
+                del dm[sub.randrange(m)]
+            elif r == 'grown':
+                dm.length = m + sub.choice([1, 2])
+            elif r == 'shrunk':
+                dm.length = max(0, m - 1)
+            elif r == 'concat':
+                other = self._base(sub, sub.randint(0, 3), series, first_u=100)
+                dm = (dm << other) if sub.random() < 0.7 else (other << dm)
+            elif r == 'unpickled':
+                dm = pickle.loads(pickle.dumps(dm, sub.choice([2, 4])))
+            tags.append(r)
+        if not steps:
+            tags.append('fresh')
+        if sub.random() < 0.35:
+            src, al = sub.choice(self.ALIASES)
+            if al not in dm:
+                dm[al] = dm[src]
+                tags.append('alias-after')
+        if sub.random() < 0.15:
+            dm.default_col_type = sub.choice([IntColumn, FloatColumn])
+            tags.append('dflt-' + dm.default_col_type.__name__)
+        if sub.random() < 0.15:
+            dm.sorted = False
+            tags.append('unsorted')
+        if series:
+            tags.append('series')
+        return dm, tags
+
+    # ---- reading a table ------------------------------------------------------------------------------------
+    @staticmethod
+    def _cells(col):
+        if hasattr(col, 'depth'):
+            return [[float(x) for x in col._seq[i]] for i in range(len(col._seq))]
+        return [col[i] for i in range(len(col._seq))]
 
     def _snap(self, dm):
-        return [(nm, type(c).__name__, [repr(v) for v in c], c.dm is dm, c.name) for nm, c in dm.columns] + [len(dm)]
+        groups = {}
+        for nm, c in dm._cols.items():
+            groups.setdefault(id(c), []).append(nm)
+        return {
+            'cols': [(nm, type(c).__name__, [repr(v) for v in self._cells(c)], c._datamatrix is dm,
+                      [int(x) for x in c._rowid]) for nm, c in dm._cols.items()],
+            'rowid': [int(x) for x in dm._rowid], 'shared': sorted(map(tuple, groups.values())),
+            'dflt': dm.default_col_type.__name__, 'sorted': dm.sorted, 'len': len(dm),
+        }
 
+    def _lits(self, dm):
+        """(tab literal, ltab literal) of a table, or None outside the Coq value domain"""
+        from datamatrix import DataMatrix
+        if not isinstance(dm, DataMatrix) or not self._in_model(dm):
+            return None
+        return self._tab_lit(dm), self._ltab_lit(dm)
+
+    def _observe_tab(self, outcome):
+        """(in model, oracle literal, model literal) of a DataMatrix result -- taken before the audits write into it"""
+        if outcome[0] == 'exn':
+            return True, '(Raise %s)' % outcome[1], '(Raise %s)' % outcome[1]
+        lits = self._lits(outcome[1])
+        if lits is None:
+            return False, None, None
+        return True, '(Ok %s)' % lits[0], '(Ok %s)' % lits[1]
+
+    def _observe_col(self, outcome, ct):
+        if outcome[0] == 'exn':
+            return True, '(Raise %s)' % outcome[1]
+        r = outcome[1]
+        if type(r) is not ct or not all(O.val(v) is not None for v in self._cells(r)):
+            return False, None
+        return True, '(Ok (%s))' % self._col_lit('', r)
+
+    def _in_model(self, dm):
+        for nm, c in dm._cols.items():
+            k = KIND.get(type(c).__name__)
+            if k is None or type(nm) is not str:
+                return False
+            if not all(cell_ok(v, k) for v in self._cells(c)):
+                return False
+            if [int(x) for x in c._rowid] != [int(x) for x in dm._rowid]:
+                return False
+        return True
+
+    def _col_lit(self, nm, c):
+        k = KIND[type(c).__name__]
+        return 'mkc %s %s %s' % (L.string(nm), k, L.lst(O.val(v) for v in self._cells(c)))
+
+    def _tab_lit(self, dm):
+        return '(mkt %s %s %s)' % (L.nat(len(dm)), KIND.get(dm.default_col_type.__name__, 'KMixed'),
+                                   L.lst(self._col_lit(nm, c) for nm, c in dm._cols.items()))
+
+    def _ltab_lit(self, dm):
+        return '(mkl %s %s %s)' % (L.lst(L.N(int(x)) for x in dm._rowid), L.boolean(bool(dm.sorted)), self._tab_lit(dm))
+
+    @staticmethod
+    def _row_lit(d):
+        return L.lst('(%s, %s)' % (L.string(k), O.val(plain(d[k]))) for k in sorted(d))
+
+    @staticmethod
+    def _upd_lit(u):
+        return L.lst('(%s, %s)' % (L.string(k), O.pyv(v)) for k, v in u.items())
+
+    # ---- purity audits ----------------------------------------------------------------------------------------
+    def _shares(self, a, b):
+        """something mutable is shared between two tables"""
+        import numpy as np
+        if a is b:
+            return 'the result is the argument itself'
+        if a._rowid is b._rowid:
+            return 'the row index object is shared'
+        for n1, c1 in a._cols.items():
+            for n2, c2 in b._cols.items():
+                if c1 is c2:
+                    return 'column object %s/%s is shared' % (n1, n2)
+                if c1._seq is c2._seq:
+                    return 'cell storage of %s/%s is shared' % (n1, n2)
+                if isinstance(c1._seq, np.ndarray) and isinstance(c2._seq, np.ndarray) and c1._seq.size and c2._seq.size \
+                        and np.shares_memory(c1._seq, c2._seq):
+                    return 'cell buffer of %s/%s is shared' % (n1, n2)
+                if c1._rowid is c2._rowid and not isinstance(c1._rowid, np.ndarray):
+                    return 'row index of columns %s/%s is shared' % (n1, n2)
+        return None
+
+    def _poke(self, victim, witness, before):
+        """write into every column of `victim`; `witness` must keep its snapshot"""
+        if len(victim) == 0:
+            return None
+        for nm, c in list(victim._cols.items()):
+            try:
+                if hasattr(c, 'depth'):
+                    c[0] = [99] * c.depth
+                else:
+                    c[0] = 77
+            except Exception:      # noqa: BLE001
+                continue
+        return None if self._snap(witness) == before else 'a write to one table showed up in the other'
+
+    # ---- user functions ---------------------------------------------------------------------------------------
+    def _value_for(self, sub, kind, allow_bad=True):
+        good = {'KMixed': [7, 2.5, 'q', None, '3', 4.0, True, float('nan'), '', -0.0, 10 ** 16],
+                'KFloat': [7, 2.5, '3', 4.0, True, float('nan'), None, 'q', -0.0, float('inf'), '2.5'],
+                'KInt': [7, 2.5, '3', 4.0, True, -1.5, 0, '4.0']}[kind]
+        bad = {'KMixed': [[1], {'a': 1}, object], 'KFloat': [[1]], 'KInt': ['q', None, float('nan'), float('inf'), [1]]}[kind]
+        if allow_bad and sub.random() < 0.06:
+            return sub.choice(bad)
+        return sub.choice(good)
+
+    def _rowfun(self, sub, dm):
+        """a pure function dict -> dict for map_ on a DataMatrix; returns (family, fn)"""
+        names = [nm for nm, c in dm._cols.items() if not hasattr(c, 'depth')]
+        kinds = {nm: KIND[type(dm._cols[nm]).__name__] for nm in names}
+        fam = sub.choice(['inc', 'newz', 'touch', 'touch', 'touchall', 'cond_new', 'empty', 'reads_new', 'swap',
+                          'identity', 'coerce'])
+        salt = sub.randrange(1000)
+
+        def h(d, extra=0):
+            """a small integer that depends on the row only"""
+            acc = salt + extra
+            for k in sorted(d):
+                v = d[k]
+                if isnum(v) and v == v and abs(v) != float('inf'):
+                    acc += int(v) * 7
+                elif isinstance(v, str):
+                    acc += len(v) + 3
+                elif v is None:
+                    acc += 11
+            return acc
+
+        if fam == 'inc':
+            return fam, lambda d: {'i': d['i'] + 1}
+        if fam == 'newz':
+            return fam, lambda d: {'i': d['i'] + 1, 'z': d['u'] * 10 if isnum(d['u']) else 'n'}
+        if fam in ('touch', 'touchall'):
+            tgt = list(names) if fam == 'touchall' else sub.sample(names, sub.randint(1, min(3, len(names))))
+            sub.shuffle(tgt)
+            pools = {nm: [self._value_for(sub, kinds[nm]) for _ in range(3)] for nm in tgt}
+            return fam, lambda d: {nm: pools[nm][h(d, i) % 3] for i, nm in enumerate(tgt)}
+        if fam == 'cond_new':
+            return fam, lambda d: ({'w': h(d), 'z': 'p'} if h(d) % 3 == 0 else ({'z': None, 'w': 2.5} if h(d) % 3 == 1 else {}))
+        if fam == 'empty':
+            return fam, lambda d: {}
+        if fam == 'reads_new':
+            return fam, lambda d: {'z': 1 if 'z' not in d else (2 if d['z'] == '' else 3), 'i': h(d) % 5}
+        if fam == 'swap':
+            return fam, lambda d: {'a': d['f'], 'f': d['i'], 'u': d['a']}
+        if fam == 'identity':
+            return fam, lambda d: dict((k, d[k]) for k in names if k in d)
+        # coerce: values that the column type converts
+        return fam, lambda d: {'i': [2.7, '3', True, -1.5, 4.0][h(d) % 5], 'f': [None, 'q', 3, '2.5', True][h(d, 1) % 5],
+                               'a': ['3', 4.0, '2.5', True, ' 7 '][h(d, 2) % 5]}
+
+    def _rowpred(self, sub, dm):
+        fam = sub.choice(['i_ge', 'u_even', 'a_text', 'true', 'false', 'a_truthy', 'f_notnan', 'mixed'])
+        k = sub.choice([-1, 0, 1, 2])
+        if fam == 'i_ge':
+            return fam, lambda d: d['i'] >= k
+        if fam == 'u_even':
+            return fam, lambda d: isnum(d['u']) and d['u'] % 2 == 0
+        if fam == 'a_text':
+            return fam, lambda d: d['a'] is None or isinstance(d['a'], str)
+        if fam == 'true':
+            return fam, lambda d: True
+        if fam == 'false':
+            return fam, lambda d: False
+        if fam == 'a_truthy':
+            return fam, lambda d: d['a']
+        if fam == 'f_notnan':
+            return fam, lambda d: d['f'] == d['f']
+        return fam, lambda d: (d['i'] + (1 if isnum(d['a']) and d['a'] == d['a'] and d['a'] > 1 else 0)) % 2
+
+    def _cellpred(self, sub):
+        fam = sub.choice(['eq', 'ge', 'nan', 'none', 'self', 'text', 'true', 'false', 'odd'])
+        k = sub.choice([0, 1, 2, 2.5, 'x'])
+        return fam, {
+            'eq': lambda x: x == k,
+            'ge': lambda x: isnum(x) and not isinstance(k, str) and x >= k,
+            'nan': lambda x: x != x,
+            'none': lambda x: x is None,
+            'self': lambda x: x,
+            'text': lambda x: isinstance(x, str),
+            'true': lambda x: 1,
+            'false': lambda x: None,
+            'odd': lambda x: isnum(x) and x == x and abs(x) != float('inf') and int(x) % 2 == 1,
+        }[fam]
+
+    def _cellmap(self, sub):
+        fam = sub.choice(['double', 'text', 'none', 'self', 'half', 'gt1', 'trunc', 'const'])
+        c = sub.choice([7, 2.5, -1])
+        return fam, {
+            'double': lambda x: x * 2 if isnum(x) else x,
+            'text': lambda x: 't' + str(x),
+            'none': lambda x: None,
+            'self': lambda x: x,
+            'half': lambda x: float(x) + 0.5 if isnum(x) else 0.25,
+            'gt1': lambda x: bool(isnum(x) and x > 1),
+            'trunc': lambda x: int(x) if (isnum(x) and x == x and abs(x) != float('inf')) else 0,
+            'const': lambda x: c,
+        }[fam]
+
+    # ---- by-value Python reference ------------------------------------------------------------------------------
+    @staticmethod
+    def _coerce(ct, v, depth=None):
+        """what a column of class ct stores for v, through the library's own (C05-checked) cell write"""
+        from datamatrix import DataMatrix, SeriesColumn
+        s = DataMatrix(length=1)
+        s.c = SeriesColumn(depth=depth) if depth is not None else ct
+        s.c[0] = v
+        return [float(x) for x in s.c._seq[0]] if depth is not None else s.c[0]
+
+    def _ref_map_dm(self, dm, fn):
+        from datamatrix import MixedColumn
+        cols = {}
+        order = []
+        for nm, c in dm._cols.items():
+            cols[nm] = [type(c), list(self._cells(c)), getattr(c, 'depth', None), c]
+            order.append(nm)
+        n = len(dm)
+        for j in range(n):
+            d = {}
+            for nm in sorted(cols):
+                v = cols[nm][1][j]
+                if cols[nm][2] is not None:
+                    import numpy as np
+                    v = np.array(v, dtype=float)
+                d[nm] = v
+            u = fn(dict(d))
+            d.update(u)
+            for k, v in d.items():
+                if k not in cols:
+                    cols[k] = [MixedColumn, [''] * n, None, None]
+                    order.append(k)
+                cols[k][1][j] = self._coerce(cols[k][0], v, cols[k][2])
+        return [(nm, cols[nm][0].__name__, [repr(v) for v in cols[nm][1]]) for nm in order]
+
+    def _view(self, dm):
+        return [(nm, type(c).__name__, [repr(v) for v in self._cells(c)]) for nm, c in dm._cols.items()]
+
+    def _byvalue_copy(self, dm, keep_alias, keep_flags):
+        from datamatrix import DataMatrix, SeriesColumn
+        import numpy as np
+        r = DataMatrix(length=len(dm))
+        seen = {}
+        for nm, c in dm._cols.items():
+            if keep_alias and id(c) in seen:
+                r[nm] = r[seen[id(c)]]
+                continue
+            seen[id(c)] = nm
+            if hasattr(c, 'depth'):
+                r[nm] = SeriesColumn(depth=c.depth)
+                if len(dm):
+                    r[nm][:] = np.array(c._seq)
+            else:
+                r[nm] = type(c)
+                r[nm][:] = list(self._cells(c))
+        if keep_flags:
+            r.default_col_type = dm.default_col_type
+            r.sorted = dm.sorted
+        return r
+
+    # ---- the cases ---------------------------------------------------------------------------------------------
     def probe(self, kind, seed):
-        import random as _random
-        import warnings
-        from datamatrix import functional as fnc, DataMatrix
         sub = _random.Random(seed)
         _random.seed(seed)
-        problem = None
         with warnings.catch_warnings():
             warnings.simplefilter('ignore')
             try:
-                dm, order = self._table(sub)
-                before = self._snap(dm)
-                eqv = lambda a, b: [repr(x) for x in a] == [repr(x) for x in b]
-                if kind == 'filter_col':
-                    name = sub.choice(['a', 'f', 'i'])
-                    k = sub.choice([0, 1, 2])
-                    # (numeric columns hand NumPy scalars to f, so f must not test for the builtin types)
-                    f = (lambda x: x >= k) if (sub.random() < 0.5 and name != 'a') else (lambda x: x == k)
-                    got = list(fnc.filter_(f, dm[name]))
-                    want = [v for v in dm[name] if f(v)]
-                    if not eqv(got, want):
-                        problem = 'filter_(f, col %s) on a %s table: %r, expected %r' % (name, order, got, want)
-                elif kind == 'filter_dm':
-                    k = sub.choice([0, 1, 2])
-                    f = lambda **d: d['i'] >= k
-                    r = fnc.filter_(f, dm)
-                    want = [u for u, i in zip(dm.u, dm.i) if i >= k]
-                    if list(r.u) != want or r.column_names != dm.column_names or not all(c.dm is r for _n, c in r.columns):
-                        problem = 'filter_(f, dm) on a %s table: rows %r, expected %r' % (order, list(r.u), want)
-                elif kind == 'map_col':
-                    name = sub.choice(['a', 'f', 'i'])
-                    f = lambda x: x if (x is None or isinstance(x, str)) else x * 2
-                    got = list(fnc.map_(f, dm[name]))
-                    want = [f(v) for v in dm[name]]
-                    if not eqv(got, want) and not (name != 'a' and all((g == w) or (g != g and w != w) for g, w in zip(got, want)) and len(got) == len(want)):
-                        problem = 'map_(f, col %s) on a %s table: %r, expected %r' % (name, order, got, want)
-                    got2 = list(dm[name] @ f)
-                    if [repr(x) for x in got2] != [repr(x) for x in got]:
-                        problem = 'col @ f differs from map_(f, col)'
-                elif kind == 'map_dm':
-                    f = lambda **d: {'i': d['i'] + 1, 'z': d['u'] * 10}
-                    r = fnc.map_(f, dm)
-                    if list(r.i) != [i + 1 for i in dm.i] or (len(dm) and list(r.z) != [u * 10 for u in dm.u]) \
-                            or list(r.u) != list(dm.u) or not eqv(list(r.a), list(dm.a)) or 'z' in dm:
-                        problem = 'map_(f, dm) on a %s table: i=%r z=%r' % (order, list(r.i), list(r.z))
-                elif kind == 'setcol':
-                    which = sub.choice(['scalar', 'list', 'column', 'column_f'])
-                    value = {'scalar': 5, 'list': list(range(100, 100 + len(dm))), 'column': dm.a, 'column_f': dm.f}[which]
-                    tgt = sub.choice(['z', 'a', 'i'])
-                    r = fnc.setcol(dm, tgt, value)
-                    ref = dm[:]
-                    # dm[name] = dm.col binds the name to that column; in the copy: to the copy's column
-                    ref[tgt] = ref[value.name] if which.startswith('column') else value
-                    gotv, wantv = [repr(v) for v in r[tgt]], [repr(v) for v in ref[tgt]]
-                    others_same = all([repr(v) for v in r[nm]] == [repr(v) for v in dm[nm]] for nm in dm.column_names if nm != tgt)
-                    if gotv != wantv or not others_same or len(r) != len(dm):
-                        problem = 'setcol(dm, %r, %s) on a %s table: %r, expected %r' % (tgt, which, order, gotv, wantv)
-                    if which.startswith('column') and (value.dm is not dm or value.name not in ('a', 'f')):
-                        problem = 'the column passed to setcol no longer belongs to dm (owner %r, name %r)' % (value.dm is dm, value.name)
-                    if len(r):
-                        r[tgt][0] = 77
-                        if which.startswith('column') and self._snap(dm) != before:
-                            problem = 'writing to the setcol result changed the original'
-                if problem is None and self._snap(dm) != before:
-                    problem = '%s modified its argument' % kind
+                import numpy as np
+                np.random.seed(seed % (2 ** 32))
+                out = getattr(self, '_case_' + kind)(sub)
             except Exception as e:      # noqa: BLE001
-                problem = 'probe %s raised %r' % (kind, e)
-        return {'input': {'probe': kind, 'seed': seed}, 'observed': {'problem': problem}, 'pyfail': problem,
-                'oracle': 'true', 'model': 'true', 'nontrivial': True, 'sig': 'probe|%s|%d' % (kind, seed),
-                'tags': ['probe', 'probe:' + kind]}
+                import traceback
+                out = {'pyfail': 'case %s raised %r (%s)' % (kind, e, traceback.format_exc(limit=3).replace('\n', ' | ')[-400:]),
+                       'tags': ['crashed']}
+        case = {'input': {'probe': kind, 'seed': seed}, 'observed': out.get('observed'), 'pyfail': out.get('pyfail'),
+                'oracle': out.get('oracle', 'true'), 'model': out.get('model', 'true'),
+                'nontrivial': out.get('nontrivial', True),
+                'sig': 'probe|%s|%s' % (kind, out.get('sig', seed)),
+                'tags': ['probe', 'probe:' + kind] + out.get('tags', [])}
+        return case
+
+    @staticmethod
+    def _first(*problems):
+        for p in problems:
+            if p:
+                return p
+        return None
+
+    def _tabulate(self, rec, keyf):
+        """-> list of (argument, result) with one entry per distinct argument; None if the function was not a function"""
+        table, seen = [], {}
+        for a, r in rec.calls:
+            k = keyf(a)
+            rk = repr(r) + type(r).__name__
+            if k in seen:
+                if seen[k] != rk:
+                    return None
+                continue
+            seen[k] = rk
+            table.append((a, r))
+        return table
+
+    @staticmethod
+    def _rowkey(d):
+        return tuple((k, tok_key(plain(d[k]))) for k in sorted(d))
+
+    def _res_lit(self, outcome, lit):
+        if outcome[0] == 'exn':
+            return '(Raise %s)' % outcome[1]
+        return '(Ok %s)' % lit(outcome[1])
+
+    def _case_map_dm(self, sub):
+        from datamatrix import functional as fnc, DataMatrix
+        dm, tags = self._zoo(sub, series_ok=True)
+        fam, fn = self._rowfun(sub, dm)
+        before = self._snap(dm)
+        lits = self._lits(dm) if 'series' not in tags else None
+        rec = Recorder(fn, True)
+        outcome = O.outcome(lambda: fnc.map_(rec.as_row_function(), dm))
+        in_model, obs_o, obs_m = self._observe_tab(outcome)
+        problem = None
+        try:
+            want = ('ok', self._ref_map_dm(dm, fn))
+        except Exception as e:      # noqa: BLE001
+            want = ('exn', O.exn_name(e))
+        if outcome[0] == 'ok':
+            r = outcome[1]
+            if not isinstance(r, DataMatrix):
+                problem = 'map_(f, dm) returned a %s' % type(r).__name__
+            elif want[0] == 'exn':
+                problem = 'map_(f, dm) returned although a cell write must raise %s' % want[1]
+            else:
+                got = self._view(r)
+                if sorted(got) != sorted(want[1]):
+                    problem = 'map_(f, dm) [%s] on a %s table: %r, expected the rows updated with f: %r' % (
+                        fam, '+'.join(tags), sorted(got), sorted(want[1]))
+                elif len(r) != len(dm) or not all(c._datamatrix is r for c in r._cols.values()):
+                    problem = 'map_(f, dm): length / owners of the result'
+            if isinstance(r, DataMatrix):
+                problem = self._first(problem, self._shares(dm, r))
+        elif want[0] == 'ok':
+            problem = 'map_(f, dm) [%s] raised %s on a %s table' % (fam, outcome[1], '+'.join(tags))
+        if self._snap(dm) != before:
+            problem = self._first(problem, 'map_ modified its argument')
+        if outcome[0] == 'ok' and isinstance(outcome[1], DataMatrix):
+            problem = self._first(problem, self._poke(outcome[1], dm, before))
+        res = {'pyfail': problem, 'tags': tags + ['f:' + fam], 'nontrivial': len(dm) > 0,
+               'sig': '%s|%s|%d|%s' % ('+'.join(tags), fam, len(dm), outcome[0]),
+               'observed': {'outcome': outcome[0] if outcome[0] == 'ok' else outcome[1], 'problem': problem}}
+        table = self._tabulate(rec, self._rowkey)
+        if table is None:
+            res['pyfail'] = self._first(problem, 'HARNESS: the recorded function gave two results for one row')
+        ok_model = lits is not None and in_model and table is not None and \
+            all(isinstance(u, dict) and all(type(k) is str and O.pyv(v) != 'POther' for k, v in u.items()) for _a, u in table)
+        if ok_model:
+            tbl = L.lst('(%s, %s)' % (self._row_lit(a), self._upd_lit(u)) for a, u in table)
+            res['oracle'] = 'oracle_map_dm %s %s %s' % (tbl, lits[0], obs_o)
+            res['model'] = 'model_map_dm %s %s %s' % (tbl, lits[1], obs_m)
+        else:
+            res['tags'] = res['tags'] + ['python-side-only']
+        return res
+
+    def _case_filter_dm(self, sub):
+        from datamatrix import functional as fnc, DataMatrix
+        dm, tags = self._zoo(sub, series_ok=True)
+        fam, fn = self._rowpred(sub, dm)
+        before = self._snap(dm)
+        lits = self._lits(dm) if 'series' not in tags else None
+        rec = Recorder(fn, True)
+        outcome = O.outcome(lambda: fnc.filter_(rec.as_row_function(), dm))
+        in_model, obs_o, obs_m = self._observe_tab(outcome)
+        problem = None
+        if outcome[0] == 'ok' and isinstance(outcome[1], DataMatrix):
+            r = outcome[1]
+            rows = []
+            for j in range(len(dm)):
+                d = {nm: (c._seq[j] if hasattr(c, 'depth') else c[j]) for nm, c in dm._cols.items()}
+                if truthy(fn(d)):
+                    rows.append(j)
+            want = [(nm, type(c).__name__, [repr(self._cells(c)[j]) for j in rows]) for nm, c in dm._cols.items()]
+            got = self._view(r)
+            if sorted(got) != sorted(want) or len(r) != len(rows):
+                problem = 'filter_(f, dm) [%s] on a %s table: %r, expected the rows %r: %r' % (
+                    fam, '+'.join(tags), sorted(got), rows, sorted(want))
+            elif [int(x) for x in r._rowid] != [int(dm._rowid[j]) for j in rows]:
+                problem = 'filter_(f, dm): row ids %r, expected %r' % (list(r._rowid), [int(dm._rowid[j]) for j in rows])
+            elif not all(c._datamatrix is r for c in r._cols.values()):
+                problem = 'filter_(f, dm): a column of the result belongs to another table'
+            problem = self._first(problem, self._shares(dm, r))
+        elif outcome[0] == 'ok':
+            problem = 'filter_(f, dm) returned a %s' % type(outcome[1]).__name__
+        else:
+            problem = 'filter_(f, dm) [%s] raised %s on a %s table' % (fam, outcome[1], '+'.join(tags))
+        if self._snap(dm) != before:
+            problem = self._first(problem, 'filter_ modified its argument')
+        if outcome[0] == 'ok' and isinstance(outcome[1], DataMatrix):
+            problem = self._first(problem, self._poke(outcome[1], dm, before))
+        res = {'pyfail': problem, 'tags': tags + ['p:' + fam], 'nontrivial': len(dm) > 0,
+               'sig': '%s|%s|%d' % ('+'.join(tags), fam, len(dm)),
+               'observed': {'outcome': outcome[0] if outcome[0] == 'ok' else outcome[1], 'problem': problem}}
+        table = self._tabulate(rec, self._rowkey)
+        if table is None:
+            res['pyfail'] = self._first(problem, 'HARNESS: the recorded predicate gave two results for one row')
+        if lits is not None and in_model and table is not None:
+            tbl = L.lst('(%s, %s)' % (self._row_lit(a), L.boolean(truthy(b))) for a, b in table)
+            res['oracle'] = 'oracle_filter_dm %s %s %s' % (tbl, lits[0], obs_o)
+            res['model'] = 'model_filter_dm %s %s %s' % (tbl, lits[1], obs_m)
+        else:
+            res['tags'] = res['tags'] + ['python-side-only']
+        return res
+
+    def _pick_col(self, sub, dm, alias):
+        """alias: None = any column, False = only columns known under one name, True = only aliased ones"""
+        groups = {}
+        for nm, c in dm._cols.items():
+            groups.setdefault(id(c), []).append(nm)
+        names = [nm for nm, c in dm._cols.items() if not hasattr(c, 'depth')
+                 and (alias is None or (len(groups[id(c)]) > 1) == alias)]
+        return sub.choice(names) if names else None
+
+    @staticmethod
+    def _np_cast(ct, w):
+        """np.array([...], dtype) of a NumericColumn._map result cell"""
+        import numpy as np
+        return np.array([w], dtype=ct.dtype)[0].item()
+
+    def _case_map_col(self, sub):
+        from datamatrix import functional as fnc, MixedColumn
+        dm, tags = self._zoo(sub)
+        name = self._pick_col(sub, dm, None)
+        col = dm[name]
+        fam, fn = self._cellmap(sub)
+        before = self._snap(dm)
+        lits = self._lits(dm)
+        col_lit = self._col_lit(name, col) if lits else None
+        rec = Recorder(fn, False)
+        ct = type(col)
+        outcome = O.outcome(lambda: fnc.map_(rec.as_cell_function(), col))
+        in_model, obs = self._observe_col(outcome, ct)
+        problem = None
+        try:
+            want = [fn(v) if ct is MixedColumn else self._np_cast(ct, fn(v)) for v in self._cells(col)]
+            want = ('ok', [repr(w) for w in want])
+        except Exception as e:      # noqa: BLE001
+            want = ('exn', O.exn_name(e))
+        if outcome[0] == 'ok':
+            r = outcome[1]
+            if want[0] == 'exn':
+                problem = 'map_(f, col) returned although the conversion must raise %s' % want[1]
+            elif type(r) is not ct or [repr(v) for v in self._cells(r)] != want[1]:
+                problem = 'map_(f, col %s) [%s] on a %s table: %s %r, expected %s %r' % (
+                    name, fam, '+'.join(tags), type(r).__name__,
+                    [repr(v) for v in self._cells(r)] if hasattr(r, '_seq') else r, ct.__name__, want[1])
+            elif r._seq is col._seq or any(c is r for c in dm._cols.values()):
+                problem = 'map_(f, col) returned (storage of) a column of the table'
+            elif [repr(v) for v in self._cells(col @ fn)] != want[1]:
+                problem = 'col @ f differs from map_(f, col)'
+        elif want[0] == 'ok':
+            problem = 'map_(f, col %s) [%s] raised %s' % (name, fam, outcome[1])
+        if self._snap(dm) != before:
+            problem = self._first(problem, 'map_ modified the table of its argument')
+        if outcome[0] == 'ok' and problem is None and len(outcome[1]):
+            try:
+                outcome[1][0] = 5
+            except Exception:      # noqa: BLE001
+                pass
+            if self._snap(dm) != before:
+                problem = 'a write to the mapped column changed the source table'
+        res = {'pyfail': problem, 'tags': tags + ['g:' + fam, 'col:' + ct.__name__], 'nontrivial': len(dm) > 0,
+               'sig': '%s|%s|%s|%d' % ('+'.join(tags), fam, ct.__name__, len(dm)),
+               'observed': {'outcome': outcome[0] if outcome[0] == 'ok' else outcome[1], 'problem': problem}}
+        table = self._tabulate(rec, lambda a: tok_key(plain(a)))
+        if table is None:
+            res['pyfail'] = self._first(problem, 'HARNESS: the recorded function gave two results for one cell')
+        if lits is not None and in_model and table is not None:
+            tbl = L.lst('(%s, %s)' % (O.val(plain(a)), O.pyv(r)) for a, r in table)
+            res['oracle'] = 'oracle_map_col %s (%s) %s' % (tbl, col_lit, obs)
+            res['model'] = 'model_map_col %s %s (Some %s) (%s) %s' % (tbl, lits[1], L.string(name), col_lit, obs)
+        else:
+            res['tags'] = res['tags'] + ['python-side-only']
+        return res
+
+    def _case_filter_col(self, sub, pending=None):
+        import functools
+        from datamatrix import functional as fnc
+        dm, tags = self._zoo(sub)
+        if pending == 'F1' and not any(t.startswith('alias') for t in tags):
+            dm.b = dm.a
+            tags = tags + ['alias-after']
+        name = self._pick_col(sub, dm, True if pending == 'F1' else False)
+        if name is None:
+            return {'tags': tags + ['no-such-column'], 'nontrivial': False}
+        col = dm[name]
+        detached = False
+        if pending == 'F4':
+            col = col * 1 if KIND[type(col).__name__] != 'KMixed' else col + ''
+            detached = True
+        fam, fn = self._cellpred(sub)
+        before = self._snap(dm)
+        lits = self._lits(dm)
+        col_lit = self._col_lit(name, col) if lits else None
+        rec = Recorder(fn, False)
+        g = rec.as_cell_function()
+        if pending == 'F5':
+            g = functools.partial(lambda k, x, _g=g: _g(x), 0)
+        ct = type(col)
+        outcome = O.outcome(lambda: fnc.filter_(g, col))
+        in_model, obs = self._observe_col(outcome, ct)
+        problem = None
+        want = [repr(v) for v in self._cells(col) if truthy(fn(v))]
+        if outcome[0] == 'ok':
+            r = outcome[1]
+            if type(r) is not ct:
+                problem = 'filter_(f, col %s) on a %s table returned a %s, not a %s' % (
+                    name, '+'.join(tags), type(r).__name__, ct.__name__)
+            else:
+                got = [repr(v) for v in self._cells(r)]
+                if got != want:
+                    problem = 'filter_(f, col %s) [%s] on a %s table: %r, expected %r' % (name, fam, '+'.join(tags), got, want)
+                elif r is col or r._seq is col._seq:
+                    problem = 'filter_(f, col) returned (storage of) its argument'
+        else:
+            problem = 'filter_(f, col %s) [%s] raised %s on a %s table' % (name, fam, outcome[1], '+'.join(tags))
+        if self._snap(dm) != before:
+            problem = self._first(problem, 'filter_ modified the table of its argument')
+        if outcome[0] == 'ok' and problem is None and len(outcome[1]):
+            try:
+                outcome[1][0] = 5
+            except Exception:      # noqa: BLE001
+                pass
+            if self._snap(dm) != before:
+                problem = 'a write to the filtered column changed the source table'
+        res = {'pyfail': problem, 'tags': tags + ['q:' + fam, 'col:' + ct.__name__] + (['pending:' + pending] if pending else []),
+               'nontrivial': len(dm) > 0, 'sig': '%s|%s|%s|%d|%s' % ('+'.join(tags), fam, ct.__name__, len(dm), pending),
+               'observed': {'outcome': outcome[0] if outcome[0] == 'ok' else outcome[1], 'problem': problem}}
+        table = self._tabulate(rec, lambda a: tok_key(plain(a)))
+        if table is None:
+            res['pyfail'] = self._first(problem, 'HARNESS: the recorded predicate gave two results for one cell')
+        if lits is not None and in_model and table is not None and pending in (None, 'F4'):
+            tbl = L.lst('(%s, %s)' % (O.val(plain(a)), L.boolean(truthy(b))) for a, b in table)
+            res['oracle'] = 'oracle_filter_col %s (%s) %s' % (tbl, col_lit, obs)
+            res['model'] = 'model_filter_col true 1 %s %s %s (%s) %s' % (
+                tbl, lits[1], 'None' if detached else '(Some %s)' % L.string(name), col_lit, obs)
+        else:
+            res['tags'] = res['tags'] + ['python-side-only']
+        return res
+
+    def _case_setcol(self, sub, pending=None):
+        import numpy as np
+        from datamatrix import functional as fnc, DataMatrix, MixedColumn, FloatColumn, IntColumn
+        dm, tags = self._zoo(sub, series_ok=True)
+        if pending == 'F2' and not any(t == 'alias-after' for t in tags) and 'b' not in dm:
+            dm.b = dm.a
+            tags = tags + ['alias-after']
+        n = len(dm)
+        groups = {}
+        for nm, c in dm._cols.items():
+            groups.setdefault(id(c), []).append(nm)
+        aliased = sorted(nm for g in groups.values() if len(g) > 1 for nm in g)
+        plain_names = [nm for nm, c in dm._cols.items() if not hasattr(c, 'depth')]
+        single = [nm for nm in plain_names if nm not in aliased]
+        which = sub.choice(['scalar', 'scalar', 'list', 'list', 'badlen', 'range', 'tuple', 'nparray', 'column', 'column',
+                            'coltype', 'foreign', 'detached', 'badname'])
+        tgt = sub.choice(plain_names) if sub.random() < 0.5 else sub.choice(['z', 'B', 'k9'])
+        by_value = which not in ('column', 'coltype', 'foreign', 'detached')
+        if pending in ('F2', 'F3'):
+            which, by_value = sub.choice(['scalar', 'list']), True
+        if pending == 'F2':
+            if not aliased:
+                return {'tags': tags + ['pending:F2', 'no-alias'], 'nontrivial': False}
+            tgt = sub.choice(aliased)
+        elif pending == 'F3':
+            if dm.default_col_type is MixedColumn:
+                dm.default_col_type = sub.choice([IntColumn, FloatColumn])
+                tags = tags + ['dflt-' + dm.default_col_type.__name__]
+            tgt = 'z'
+        else:
+            if tgt in aliased and by_value:
+                tgt = 'z'                                # (F2) stays out of the default stream
+            if dm.default_col_type is not MixedColumn and tgt not in dm and by_value:
+                tgt = sub.choice(single)                 # (F3) stays out of the default stream
+        tk = KIND[type(dm._cols[tgt]).__name__] if tgt in dm else KIND[dm.default_col_type.__name__]
+        name_arg, owner_ok, cv, src = tgt, True, None, None
+        if which == 'scalar':
+            value = self._value_for(sub, tk)
+            cv = '(CVScalar %s)' % O.pyv(value) if (value is None or isinstance(value, (str, numbers.Number))) else None
+        elif which in ('list', 'tuple', 'nparray'):
+            value = [self._value_for(sub, tk, allow_bad=(which == 'list')) for _ in range(n)]
+            if which == 'tuple':
+                value = tuple(value)
+            if which == 'nparray':
+                value = np.array([sub.choice([1, 2.5, -3]) for _ in range(n)])
+            cv = '(CVSeq %s)' % L.lst(O.pyv(v) for v in value)
+        elif which == 'badlen':
+            value = [1] * ((n + sub.choice([-1, 1, 2])) if n else 1)
+            cv = '(CVSeq %s)' % L.lst(O.pyv(v) for v in value)
+        elif which == 'range':
+            value = range(100, 100 + n)
+            cv = '(CVSeq %s)' % L.lst(O.pyv(v) for v in value)
+        elif which == 'column':
+            src = sub.choice(plain_names)
+            value = dm[src]
+        elif which == 'coltype':
+            value = sub.choice([MixedColumn, FloatColumn, IntColumn])
+            cv = '(CVType %s)' % KIND[value.__name__]
+        elif which == 'foreign':
+            other = DataMatrix(length=n)
+            other.q = list(range(n))
+            value, owner_ok = other.q, False
+        elif which == 'detached':
+            src = sub.choice([nm for nm in plain_names if KIND[type(dm._cols[nm]).__name__] != 'KMixed'] or ['f'])
+            value = dm[src] * 1
+        else:
+            which, value, name_arg = 'badname', 5, sub.choice([3, None, ('a',)])
+            cv = '(CVScalar (PInt 5))'
+        is_col = which in ('column', 'foreign', 'detached')
+        if is_col:
+            vcells = self._cells(value)
+            vk = KIND[type(value).__name__]
+            if all(cell_ok(v, vk) for v in vcells):
+                cv = '(CVCol %s %s)' % (vk, L.lst(O.val(v) for v in vcells))
+            value_before = ([repr(v) for v in vcells], value._datamatrix, value.name if which != 'detached' else None)
+        before = self._snap(dm)
+        lits = self._lits(dm) if 'series' not in tags else None
+        outcome = O.outcome(lambda: fnc.setcol(dm, name_arg, value))
+        in_model, obs_o, obs_m = self._observe_tab(outcome)
+        problem = None
+        # the reference: an independent copy (by value; for the pending findings: one that keeps shared columns), then
+        # the plain assignment dm[name] = value
+        ref = self._byvalue_copy(dm, keep_alias=bool(pending), keep_flags=True)
+        if which == 'badname':
+            want = ('exn', 'TypeError')
+        elif which == 'foreign':
+            want = ('exn', 'PlainException')
+        else:
+            def assign():
+                if which == 'column':
+                    ref[tgt] = ref[src]
+                elif which == 'detached':
+                    ref[tgt] = self._byvalue_copy(dm, False, False)[src] * 1
+                else:
+                    ref[tgt] = value
+                return ref
+            want = O.outcome(assign)
+        if outcome[0] == 'ok' and isinstance(outcome[1], DataMatrix):
+            r = outcome[1]
+            if want[0] == 'exn':
+                problem = 'setcol(dm, %r, <%s>) returned although dm[name] = value raises %s' % (name_arg, which, want[1])
+            else:
+                got, exp = sorted(self._view(r)), sorted(self._view(want[1]))
+                if got != exp or len(r) != n:
+                    problem = 'setcol(dm, %r, <%s>) on a %s table: %r, but dm[name] = value gives %r' % (
+                        tgt, which, '+'.join(tags), got, exp)
+                elif not all(c._datamatrix is r for c in r._cols.values()):
+                    problem = 'setcol: a column of the result belongs to another table'
+            problem = self._first(problem, self._shares(dm, r))
+        elif outcome[0] == 'ok':
+            problem = 'setcol returned a %s' % type(outcome[1]).__name__
+        elif want[0] == 'ok':
+            problem = 'setcol(dm, %r, <%s>) raised %s on a %s table' % (tgt, which, outcome[1], '+'.join(tags))
+        elif which in ('badname', 'foreign') and outcome[1] != want[1]:
+            problem = 'setcol(dm, %r, <%s>) raised %s, expected %s' % (name_arg, which, outcome[1], want[1])
+        if self._snap(dm) != before:
+            problem = self._first(problem, 'setcol modified its argument')
+        if is_col:
+            now = ([repr(v) for v in self._cells(value)], value._datamatrix, value.name if which != 'detached' else None)
+            if now[0] != value_before[0] or now[1] is not value_before[1] or now[2] != value_before[2]:
+                problem = self._first(problem, 'the column passed to setcol changed (cells / owner / name): %r -> %r' % (
+                    value_before[2], now[2]))
+        if outcome[0] == 'ok' and isinstance(outcome[1], DataMatrix):
+            problem = self._first(problem, self._poke(outcome[1], dm, before))
+            if is_col and problem is None and n:
+                # ... and a write to the passed column must not reach the result
+                view = self._view(outcome[1])
+                try:
+                    value[0] = 55
+                except Exception:      # noqa: BLE001
+                    pass
+                if self._view(outcome[1]) != view:
+                    problem = 'a write to the column passed to setcol changed the result'
+        tgt_new = all(tgt != c[0] for c in before['cols'])
+        res = {'pyfail': problem, 'tags': tags + ['v:' + which, 'tgt:' + ('new' if tgt_new else 'old')]
+               + (['pending:' + pending] if pending else []),
+               'nontrivial': True, 'sig': '%s|%s|%s|%d|%s|%s' % ('+'.join(tags), which, tgt, n, outcome[0], pending),
+               'observed': {'outcome': outcome[0] if outcome[0] == 'ok' else outcome[1], 'problem': problem}}
+        if lits is not None and in_model and cv is not None:
+            nm_lit = L.string(tgt)
+            if which not in ('badname', 'foreign'):
+                res['oracle'] = 'oracle_setcol %s %s %s %s' % (lits[0], nm_lit, cv, obs_o)
+            if not pending:
+                res['model'] = 'model_setcol %s %s %s %s %s %s' % (
+                    L.boolean(which != 'badname'), L.boolean(owner_ok), lits[1], nm_lit, cv, obs_m)
+        else:
+            res['tags'] = res['tags'] + ['python-side-only']
+        return res
+
+    def _case_pending_F1(self, sub):
+        return self._case_filter_col(sub, 'F1')
+
+    def _case_pending_F2(self, sub):
+        return self._case_setcol(sub, 'F2')
+
+    def _case_pending_F3(self, sub):
+        return self._case_setcol(sub, 'F3')
+
+    def _case_pending_F4(self, sub):
+        return self._case_filter_col(sub, 'F4')
+
+    def _case_pending_F5(self, sub):
+        return self._case_filter_col(sub, 'F5')
+
+    def _case_guards(self, sub):
+        """non-callable function / an object that is neither a column nor a DataMatrix: TypeError, nothing touched"""
+        from datamatrix import functional as fnc
+        dm, tags = self._zoo(sub)
+        before = self._snap(dm)
+        problem = None
+        o_parts = []
+        for what, call, lit in (
+                ('map_(3, dm)', lambda: fnc.map_(3, dm), 'model_guard_map false'),
+                ('map_(3, col)', lambda: fnc.map_(3, dm.a), 'model_guard_map false'),
+                ('map_(f, 3)', lambda: fnc.map_(lambda x: x, 3), 'model_guard_map true'),
+                ('filter_(None, dm)', lambda: fnc.filter_(None, dm), 'model_guard_filter false'),
+                ('filter_(f, [1])', lambda: fnc.filter_(lambda x: x, [1, 2]), 'model_guard_filter true'),
+                ('filter_("f", col)', lambda: fnc.filter_('f', dm.a), 'model_guard_filter false')):
+            out = O.outcome(call)
+            if out[0] == 'ok':
+                problem = self._first(problem, '%s returned %r' % (what, out[1]))
+            else:
+                if out[1] != 'TypeError':
+                    problem = self._first(problem, '%s raised %s, expected TypeError' % (what, out[1]))
+                o_parts.append('%s %s' % (lit, out[1]))
+        if self._snap(dm) != before:
+            problem = self._first(problem, 'a refused call modified its argument')
+        return {'pyfail': problem, 'tags': ['guards'], 'model': '(' + ' && '.join(o_parts) + ')' if o_parts else 'true',
+                'sig': 'guards'}
 
     def generate(self, rng, tier):
         cases = []
+        per = 64 if tier == 'quick' else 700
         for kind in ('filter_col', 'filter_dm', 'map_col', 'map_dm', 'setcol'):
-            for _ in range(40 if tier == 'quick' else 400):
+            for _ in range(per):
                 cases.append(self.probe(kind, rng.randrange(1 << 30)))
-        ctr = [0]
+        if INCLUDE_PENDING_FINDINGS:
+            for kind in ('pending_F1', 'pending_F2', 'pending_F3', 'pending_F4', 'pending_F5'):
+                for _ in range(per // 4):
+                    cases.append(self.probe(kind, rng.randrange(1 << 30)))
+        # guards of map_ / filter_ (Python-side outcome, model in Coq)
+        cases.append(self.probe('guards', 0))
 
-        def args(k):
-            out = list(range(ctr[0] + 1, ctr[0] + k + 1))
-            ctr[0] += k
-            return out
-
-        # all compositions, with every prefix
+        # ---------------- curry: all compositions, with every prefix
         for n in range(1, 7):
             for comp in compositions(n):
                 vals = [rng.randint(-50, 50) for _ in range(n)]
@@ -237,29 +1147,18 @@ class C19:
                     i += k
                 paths = [path[:j] for j in range(1, len(path) + 1)]
                 cases.append(self.rerun({'n': n, 'paths': paths, 'tags': ['composition']}))
-        # prefix reuse trees
+        # prefix reuse trees (plain integers; chains advanced in a random interleaving)
         reps = 150 if tier == 'quick' else 3000
         for _ in range(reps):
-            n = rng.randint(2, 6)
-            comp = rng.choice(list(compositions(n)))
-            if len(comp) < 2:
-                continue
-            cut = rng.randint(1, len(comp) - 1)
-            vals = [rng.randint(-9, 9) for _ in range(n)]
-            pre, i = [], 0
-            for k in comp[:cut]:
-                pre.append(vals[i:i + k])
-                i += k
-            rest = n - i
-            paths = []
-            for _c in range(rng.randint(2, 4)):
-                comp2 = rng.choice(list(compositions(rest)))
-                cont = [[rng.randint(-9, 9) for _ in range(k)] for k in comp2]
-                paths.append(pre + cont)
-                if rng.random() < 0.3 and len(cont) > 1:
-                    paths.append(pre + cont[:-1])
-            rng.shuffle(paths)
-            cases.append(self.rerun({'n': n, 'paths': paths, 'tags': ['reuse']}))
+            inp = self._reuse_tree(rng, lambda: rng.randint(-9, 9), False)
+            if inp:
+                cases.append(self.rerun(inp))
+        # the same with arguments that are equal but distinguishable
+        npool = len(rich_pool())
+        for _ in range(reps):
+            inp = self._reuse_tree(rng, None, True, npool)
+            if inp:
+                cases.append(self.rerun(inp))
         # outside the quantifier: only the model is compared
         for _ in range(60 if tier == 'quick' else 600):
             n = rng.randint(1, 5)
@@ -267,7 +1166,63 @@ class C19:
             for _k in range(rng.randint(1, 4)):
                 path.append([rng.randint(-9, 9) for _ in range(rng.choice([0, 0, 1, 2, 3, n, n + 1]))])
             cases.append(self.rerun({'n': n, 'paths': [path], 'tags': ['malformed']}))
+        for _ in range(10 if tier == 'quick' else 60):
+            n = rng.randint(1, 4)
+            k = rng.randint(0, n - 1)
+            cases.append(self.rerun({'n': n, 'paths': [[[rng.randint(-9, 9) for _ in range(k)]] if k else [[]]],
+                                     'kw': {'a%d' % (n - 1): 3}, 'tags': ['keywords']}))
         return cases
+
+    # groups of pool indices whose members compare equal (or are indistinguishable by ==/hash) but are different objects
+    CONFUSABLE = [[0, 1, 2, 3], [4, 5, 6, 7], [8, 9], [10, 11], [14, 15], [16, 17, 18], [20, 21, 22], [23, 24],
+                  [25, 26], [27, 28], [32, 33]]
+
+    def _reuse_tree(self, rng, draw, rich, npool=0):
+        n = rng.randint(2, 6)
+        comp = rng.choice(list(compositions(n)))
+        if len(comp) < 2:
+            return None
+
+        def arg():
+            if not rich:
+                return draw()
+            if rng.random() < 0.7:
+                return rng.choice(rng.choice(self.CONFUSABLE))
+            return rng.randrange(npool)
+
+        def twin(a):
+            """an argument that compares equal to a but is another object, if there is one"""
+            for g in self.CONFUSABLE:
+                if a in g and len(g) > 1:
+                    return rng.choice([x for x in g if x != a])
+            return a
+
+        cut = rng.randint(1, len(comp) - 1)
+        vals = [arg() for _ in range(n)]
+        pre, i = [], 0
+        for k in comp[:cut]:
+            pre.append(vals[i:i + k])
+            i += k
+        rest = n - i
+        paths = []
+        for _c in range(rng.randint(2, 5)):
+            comp2 = rng.choice(list(compositions(rest)))
+            cont = [[arg() for _ in range(k)] for k in comp2]
+            p = pre
+            if rich and rng.random() < 0.6:
+                # a prefix that is ==-equal to the shared one, chunk by chunk, but made of other objects
+                p = [[twin(a) if rng.random() < 0.7 else a for a in ch] for ch in pre]
+            paths.append(p + cont)
+            if rng.random() < 0.3 and len(cont) > 1:
+                paths.append(p + cont[:-1])
+        rng.shuffle(paths)
+        sched = [i for i, p in enumerate(paths) for _ in p]
+        if rng.random() < 0.6:
+            rng.shuffle(sched)
+        inp = {'n': n, 'paths': paths, 'sched': sched, 'tags': ['reuse-rich' if rich else 'reuse']}
+        if rich:
+            inp['rich'] = True
+        return inp
 
     def shrink_candidates(self, inp):
         if 'probe' in inp:
@@ -275,12 +1230,16 @@ class C19:
         paths = inp['paths']
         for i in range(len(paths)):
             if len(paths) > 1:
-                yield {'n': inp['n'], 'paths': paths[:i] + paths[i + 1:], 'tags': inp.get('tags', [])}
+                c = dict(inp)
+                c['paths'] = paths[:i] + paths[i + 1:]
+                c.pop('sched', None)
+                yield c
 
     def key(self, case):
         if 'probe' in case['input']:
             return 'probe %s' % case['input']['probe']
-        return 'curry n=%d paths=%s' % (case['input']['n'], json_compact(case['input']['paths']))
+        return 'curry n=%d %spaths=%s' % (case['input']['n'], 'rich ' if case['input'].get('rich') else '',
+                                          json_compact(case['input']['paths']))
 
 
 def json_compact(x):
